@@ -331,7 +331,7 @@ fn focused(rng: &mut Rng, clean: bool) -> String {
         let p = plain_line(rng, clean);
         // a clean document stays inside the class the theorems cover: explicit paragraphs,
         // headings, loose items, quotes; ranges that end at a line end
-        let part = match if clean { *rng.pick(&[0usize, 1, 2, 3, 4, 7, 8, 12, 14, 16, 17]) } else { rng.below(18) } {
+        let part = match if clean { *rng.pick(&[0usize, 1, 2, 3, 4, 7, 8, 12, 14, 16, 17]) } else { rng.below(22) } {
             0 => l1,
             1 => format!("{}\n{}", p, l1),
             2 => format!("{}\n{}\n{}", p, l1, l2),
@@ -349,6 +349,11 @@ fn focused(rng: &mut Rng, clean: bool) -> String {
             14 => format!("{}  \n{}", l1, l2),
             16 => format!("- {}\n\n- {}\n\n  {}\n  {}", l1, p, p, l2),
             17 => format!("> {}\n>\n> # {}", l1, l2),
+            // text of a TIGHT item that follows a block which is not a paragraph
+            18 => format!("- ***\n  {}", l1),
+            19 => format!("- {}\n  ```\n  c\n  ```\n  {}", p, l1),
+            20 => format!("1. # {}\n   {}", p, l1),
+            21 => format!("> - ***\n>   {}\n> - {}\n>   ***\n>   {}", l1, p, l2),
             _ => format!("* {}\n\n  > {}\n  > {}", p, l1, l2),
         };
         parts.push(part);
